@@ -136,6 +136,7 @@ struct Gen {
             if (k < 4) p.add(where, "tell", {rmod(), rmod(), af});
             else if (k < 7) p.add(where, "pub", {rmod(), rtopic(false), af});
             else if (k < 9) p.add(where, "bcast", {rmod(), af});
+            else if (tasks_in_program && camp != "C04") p.add(where, "tell", {rmod(), rmod(), af});   // avoid(known finding: task thread vs module stop): a pill stops its recipient
             else p.add(where, "pill", {rmod(), rmod()});
             break;
         }
@@ -263,7 +264,9 @@ Program gen_core(const std::string &campaign, uint64_t seed, bool thorough) {
     p.set("teardown", (long)r.below(2));
     p.set("keeprefs", r.chance(campaign == "C04" || campaign == "C20" ? 0.5 : 1.0) ? 1 : 0);
     p.set("nufd", 3);
-    if (campaign == "C09" || campaign == "C20") p.set("fdpermod", 1);   // one owner per user descriptor (two auto-closing owners is the program's own double close)
+    // avoid(known finding C09: one descriptor cannot be polled for two modules of a context; two auto-closing owners would also be the
+    // program's own double close): every module registers private descriptors only
+    p.set("fdpermod", 1);
     g.tasks_in_program = campaign == "C04" ? r.chance(0.6) : r.chance(0.3);
     p.set("tasks", g.tasks_in_program ? 1 : 0);
     bool dispatch_mode = r.chance(0.4);
